@@ -145,7 +145,7 @@ def info(ctx, F, tag, kind):
     return fi
 
 
-def check_pair(ctx, kind, sub, A, B, tag, expect_different=False):
+def check_pair(ctx, kind, sub, A, B, tag):
     """The oracle.  A is the base of the pair, B the variant."""
     a = info(ctx, A, tag, "base")
     b = info(ctx, B, tag, kind)
@@ -315,6 +315,10 @@ def random_case(ctx, i, rng):
                 ctx.count("mutant_no_site_or_rejected")
                 ctx.count("rejected:" + name)
                 continue
+            except Exception as ex:  # a real UFL constructor refused the mutated operands: no pair to judge
+                ctx.count("mutant_refused_by_ufl")
+                ctx.covered("mutant_refused_by_ufl", f"{name}:{type(ex).__name__}")
+                continue
             if name.startswith("element-"):
                 sub = None
             if name in ("literal-value", "literal-ulp", "fixed-index", "restriction-side", "terminal-type", "integral-type", "integrand-swap", "terminal-domain", "function-space-label"):
@@ -324,9 +328,10 @@ def random_case(ctx, i, rng):
     # coordinate element of the mesh (same recipe, other coordinate degree)
     try:
         Fc, _ = build(seed, coord_degree=rng.choice([2, 3]))
-        check_pair(ctx, "coordinate-degree", None, F, Fc, tag)
     except Exception as ex:
         ctx.count("rejected:coordinate-degree")
+    else:
+        check_pair(ctx, "coordinate-degree", None, F, Fc, tag)
 
     # metadata: decorate one integral with a rich metadata dict, then change one entry
     k = rng.randrange(len(F.integrals()))
@@ -334,21 +339,22 @@ def random_case(ctx, i, rng):
     Fm = T.with_metadata(F, k, md)
     check_pair(ctx, "metadata-set", None, F, Fm, tag)
     for kind in META_KINDS:
-        M = T.metadata_mutant(Fm, k, md, kind, rng)
-        check_pair(ctx, kind, None, Fm, M, tag)
+        check_pair(ctx, kind, None, Fm, T.metadata_mutant(Fm, k, md, kind, rng), tag)
 
     # base form operators: attach an ExternalOperator / Interpolate factor, then change one datum
     k = rng.randrange(len(F.integrals()))
     try:
         fam = T.BFOFamily(F, k, rng, U.mesh, U.cell)
         base = {"eo": fam.eo(), "interp": fam.interp()}
+        variants = [(kind,) + fam.variant(kind) for kind in T.BFO_KINDS]
+    except Exception as ex:  # building the inputs failed inside UFL
+        ctx.count("rejected:bfo")
+        ctx.covered("mutant_refused_by_ufl", f"bfo:{type(ex).__name__}")
+    else:
         check_pair(ctx, "bfo-attached", None, F, base["eo"], tag)
         check_pair(ctx, "bfo-attached", None, F, base["interp"], tag)
-        for kind in T.BFO_KINDS:
-            which, M = fam.variant(kind)
+        for kind, which, M in variants:
             check_pair(ctx, kind, None, base[which], M, tag)
-    except T.Reject:
-        ctx.count("rejected:bfo")
     INFO.clear()
 
 
